@@ -919,30 +919,33 @@ func init() {
 			for i, c := range big {
 				want[i] = c.run()
 			}
-			var wg sync.WaitGroup
+			// all goroutines enter the SAME call at the same instant (a barrier per round): the windows in which calls read and
+			// write such a counter are a fraction of a millisecond wide
 			var mu sync.Mutex
 			var bad *failure
-			rounds := scale(2, 6)
-			for gi := 0; gi < 8; gi++ {
-				wg.Add(1)
-				go func(gi int) {
-					defer wg.Done()
-					for r := 0; r < rounds; r++ {
-						for k := range big {
-							i := (k + gi) % len(big)
+			rounds := scale(8, 30)
+			for i := range big {
+				for r := 0; r < rounds && bad == nil; r++ {
+					var wg sync.WaitGroup
+					start := make(chan struct{})
+					for gi := 0; gi < 8; gi++ {
+						wg.Add(1)
+						go func() {
+							defer wg.Done()
+							<-start
 							if got := big[i].run(); got != want[i] {
 								mu.Lock()
 								if bad == nil {
-									bad = &failure{Stream: "oracle", What: "with several goroutines expanding large expressions at once, a call returned a different result than the sequential call: " + show(got[:min(len(got), 80)]) + " instead of " + show(want[i][:min(len(want[i]), 80)]), Case: &kase{Expr: big[i].expr, ExprHex: hx(big[i].expr), Allowed: big[i].list, Extra: map[string]string{"fn": itoa(big[i].fn), "concurrent": "8 goroutines, expressions of 27000-64000 alternatives"}}, Impl: got[:min(len(got), 200)], Expected: want[i][:min(len(want[i]), 200)]}
+									bad = &failure{Stream: "oracle", What: "with several goroutines expanding large expressions at once, a call returned a different result than the sequential call: " + show(got[:min(len(got), 80)]) + " instead of " + show(want[i][:min(len(want[i]), 80)]), Case: &kase{Expr: big[i].expr, ExprHex: hx(big[i].expr), Allowed: big[i].list, Extra: map[string]string{"fn": itoa(big[i].fn), "concurrent": "8 goroutines enter the same call at the same moment; expressions of 27000-64000 alternatives"}}, Impl: got[:min(len(got), 200)], Expected: want[i][:min(len(want[i]), 200)]}
 								}
 								mu.Unlock()
-								return
 							}
-						}
+						}()
 					}
-				}(gi)
+					close(start)
+					wg.Wait()
+				}
 			}
-			wg.Wait()
 			res.Evaluations += 8 * rounds * len(big)
 			countN("large_expansions_concurrent_calls", 8*rounds*len(big))
 			if bad != nil {
